@@ -42,15 +42,16 @@ import (
 // fresh host results: Run(order), Run(identity order), RunStreaming(order).
 
 const (
-	c15KOverlap  = iota // rows whose labels+attributes also occur on other "overlap" hosts (+ one own row)
-	c15KDisjoint        // rows labelled with the own hostname only; host truncated its rows (Hits.Total > len(Rows))
-	c15KEmpty           // no rows, status "empty", statistics and time range present
-	c15KError           // results.New() + SetErr(plain error), as apiclient.Query builds it
-	c15KWrapped         // SetErr(fmt.Errorf("...: %w", inner))
+	c15KOverlap      = iota // rows whose labels+attributes also occur on other "overlap" hosts (+ one own row)
+	c15KDisjoint            // rows labelled with the own hostname only; host truncated its rows (Hits.Total > len(Rows))
+	c15KEmpty               // no rows, status "empty", statistics and time range present
+	c15KError               // results.New() + SetErr(plain error), as apiclient.Query builds it
+	c15KWrapped             // SetErr(fmt.Errorf("...: %w", inner))
+	c15KEmptyNoRange        // like empty, but the host reports no covered time range at all (zero First / Last)
 	c15NKinds
 )
 
-var c15KindNames = [...]string{"overlap", "disjoint", "empty", "error", "wrapped-error"}
+var c15KindNames = [...]string{"overlap", "disjoint", "empty", "error", "wrapped-error", "empty-no-time-range"}
 
 const c15T0 = int64(1700000100) // multiple of 300 and of 900
 
@@ -104,16 +105,17 @@ type c15Row struct {
 }
 
 type c15Host struct {
-	name   string
-	kind   int
-	rows   []c15Row
-	totals types.Counters
-	hits   int
-	stats  workload.Stats
-	first  int64
-	last   int64
-	ifaces []string
-	err    error
+	name    string
+	kind    int
+	noRange bool // the host result carries no covered time range
+	rows    []c15Row
+	totals  types.Counters
+	hits    int
+	stats   workload.Stats
+	first   int64
+	last    int64
+	ifaces  []string
+	err     error
 }
 
 func c15Counters(host, rowid int) (br, bs, pr, ps uint64) {
@@ -148,6 +150,10 @@ func c15BuildHost(i, kind int, withTime bool) *c15Host {
 	h.stats.BlocksCorrupted = uint64(i % 2)
 	h.stats.DirectoriesProcessed = uint64(i + 1)
 	h.stats.Workloads = 2 * uint64(i+1)
+	if kind == c15KEmptyNoRange {
+		h.noRange = true
+		return h
+	}
 	if kind == c15KEmpty {
 		return h
 	}
@@ -222,7 +228,9 @@ func c15Result(h *c15Host, m *c15Mode) *results.Result {
 	r.Hostname = h.name
 	r.Query = results.Query{Attributes: strings.Split(m.queryTyp, ",")}
 	r.Summary.Interfaces = append(results.Interfaces(nil), h.ifaces...)
-	r.Summary.First, r.Summary.Last = time.Unix(h.first, 0), time.Unix(h.last, 0)
+	if !h.noRange {
+		r.Summary.First, r.Summary.Last = time.Unix(h.first, 0), time.Unix(h.last, 0)
+	}
 	r.Summary.Totals = h.totals
 	r.Summary.Hits.Total = h.hits
 	r.Summary.DataAvailable = true
@@ -627,11 +635,17 @@ func c15Decode(c int) (n int, kinds []int) {
 }
 
 func c15Cases(tier string) int {
-	// N=2: 25, N=3: 125, N=4: 625, N=5: 3125
+	// sum over N of c15NKinds^N
+	maxN := 3
 	if tier == "thorough" {
-		return 25 + 125 + 625 + 3125
+		maxN = 5
 	}
-	return 25 + 125
+	total, size := 0, c15NKinds
+	for n := 2; n <= maxN; n++ {
+		size *= c15NKinds
+		total += size
+	}
+	return total
 }
 
 var c15ArrivalLabels = func() [][]string {
@@ -764,7 +778,7 @@ func c15RunScenario(x *explore.Ctx) {
 func init() {
 	register("C15", &explore.Scenario{
 		ID: "C15", Name: "distributed merge: all arrival orders, reference merge, streaming == non-streaming", Level: "model_checking",
-		Rule:  "case = (N, kind of each of the N hosts) for N=2..3 (quick) / 2..5 (thorough) with kinds {rows overlapping other hosts' rows (+1 own row), disjoint rows (host-truncated: hits/totals exceed rows), empty, error, wrapped error}, every host with its own covered time range, interfaces, statistics; per case: query mode (6 quick / 10 thorough: attribute query with limit 1000/3/1/2 and bytes|packets asc|desc; time query unbinned, 15m and 1h bins, with/without truncating limit) x ALL N! arrival orders (one choice per arrival among the hosts not yet delivered) on the channel the real aggregator reads. Each execution runs the real distributed.QueryRunner three times on fresh inputs: Run(order), Run(identity order), RunStreaming(order, recording sse.Sender). Oracles: (ref) reference merge from the statement: rows = union with counters summed per (labels, attributes), with a limit: min(limit, |union|) rows, each one a row of the union with the summed counters (WHICH rows survive is the sort property's subject), totals/stats = sums, Hits.Total = sum of host hits - merged rows (unbinned modes), every failed host present with code error and its (possibly unwrapped) message, every answering host present; (order-dependent:<component>) every component of the canonical result except timings equal to the identity-order run; (streaming-final-differs:<component>) RunStreaming result equal to Run result. When several oracles fire on one input an extra choice point selects which one the execution reports, so no finding masks another. state = (mode, set of hosts merged so far) plus the canonical partial result handed to the sse sender after each answering host; non-trivial = non-identity order with >= 2 answering hosts, distinct by (mode, order, whether rows merged)",
+		Rule:  "case = (N, kind of each of the N hosts) for N=2..3 (quick) / 2..5 (thorough) with kinds {rows overlapping other hosts' rows (+1 own row), disjoint rows (host-truncated: hits/totals exceed rows), empty, error, wrapped error, empty without any covered time range}, every host with its own covered time range, interfaces, statistics; per case: query mode (6 quick / 10 thorough: attribute query with limit 1000/3/1/2 and bytes|packets asc|desc; time query unbinned, 15m and 1h bins, with/without truncating limit) x ALL N! arrival orders (one choice per arrival among the hosts not yet delivered) on the channel the real aggregator reads. Each execution runs the real distributed.QueryRunner three times on fresh inputs: Run(order), Run(identity order), RunStreaming(order, recording sse.Sender). Oracles: (ref) reference merge from the statement: rows = union with counters summed per (labels, attributes), with a limit: min(limit, |union|) rows, each one a row of the union with the summed counters (WHICH rows survive is the sort property's subject), totals/stats = sums, Hits.Total = sum of host hits - merged rows (unbinned modes), every failed host present with code error and its (possibly unwrapped) message, every answering host present; (order-dependent:<component>) every component of the canonical result except timings equal to the identity-order run; (streaming-final-differs:<component>) RunStreaming result equal to Run result. When several oracles fire on one input an extra choice point selects which one the execution reports, so no finding masks another. state = (mode, set of hosts merged so far) plus the canonical partial result handed to the sse sender after each answering host; non-trivial = non-identity order with >= 2 answering hosts, distinct by (mode, order, whether rows merged)",
 		Cases: c15Cases,
 		Bound: func(string) int { return 0 },
 		Run:   c15RunScenario,
